@@ -246,6 +246,9 @@ def _safe_pow(a, b):
     _discontinuity(_residue(a), 'tiny base of a power')
     _discontinuity(_residue(b) and abs(a) <= TINY, 'power near 0 ** 0')
     _discontinuity(a < 0 and _almost_integral(b), 'negative base, almost integral exponent')
+    # the sign of a negative base's power depends on the parity of the exponent, which a float cannot carry
+    # beyond 2**53: (-1.0) ** (27 ** 27) is 1.0 in float arithmetic and -1 exactly
+    _discontinuity(a < 0 and abs(b) >= 2 ** 53, 'negative base, exponent parity beyond float precision')
     if isinstance(a, int) and isinstance(b, int):
         if b < 0:
             if a == 0:
